@@ -104,6 +104,9 @@ type Run struct {
 	// ObsAll: observe every variable of the acting task after every step
 	// (otherwise only the receiver).
 	ObsAll bool `json:"obs_all"`
+	// Aux: after every call also run the remaining read-only API functions on
+	// the receiver and fold their results into the run-alone comparison (C16).
+	Aux bool `json:"aux,omitempty"`
 	// Returns: exercise and retain every slice-returning call (C15).
 	Returns bool `json:"returns,omitempty"`
 	// Sched is the generation-time policy; Switches the schedule actually
